@@ -1655,3 +1655,83 @@ Qed.
    What is proved about them: assign_at_injective_bounded, assign_hash_round_robin (the plans, as functional
    specifications on lists), resolve_rules_total, resolve_no_sign_unchanged. The equality with spec_resolve is
    checked on every generated case by spec_violations (model = implementation = spec on the same inputs). *)
+
+(* ================================================================ resolution vs spec_resolve : '@' *)
+Lemma nth_error_ext_eq : forall {A} (l1 l2 : list A), (forall j, nth_error l1 j = nth_error l2 j) -> l1 = l2.
+Proof.
+  intros A l1. induction l1 as [|a l1 IH]; intros [|b l2] H; auto.
+  - specialize (H 0%nat). discriminate.
+  - specialize (H 0%nat). discriminate.
+  - pose proof (H 0%nat) as H0. simpl in H0. inversion H0; subst. f_equal. apply IH.
+    intros j. exact (H (S j)).
+Qed.
+
+Lemma nth_error_set_nth : forall {A} (l : list A) k v j,
+  nth_error (set_nth k v l) j = if Nat.eqb j k then option_map (fun _ => v) (nth_error l j) else nth_error l j.
+Proof.
+  intros A l. induction l as [|a l IH]; intros k v j; simpl.
+  - destruct (Nat.eqb j k); destruct j; reflexivity.
+  - destruct k as [|k]; destruct j as [|j]; simpl; auto. apply IH.
+Qed.
+
+Lemma nth_error_enumerate_from : forall {A} (l : list A) s j,
+  nth_error (combine (seq s (length l)) l) j = option_map (fun x => ((s + j)%nat, x)) (nth_error l j).
+Proof.
+  intros A l. induction l as [|a l IH]; intros s j; simpl.
+  - destruct j; reflexivity.
+  - destruct j as [|j]; simpl.
+    + rewrite Nat.add_0_r. reflexivity.
+    + rewrite IH. rewrite Nat.add_succ_r. reflexivity.
+Qed.
+Lemma nth_error_enumerate : forall {A} (l : list A) j,
+  nth_error (enumerate l) j = option_map (fun x => (j, x)) (nth_error l j).
+Proof. intros. unfold enumerate. rewrite nth_error_enumerate_from. reflexivity. Qed.
+
+Definition at_step (ps : list gproc) (kpi : nat * gproc * Z) : list gproc :=
+  let '((k, p), ident) := kpi in set_nth k (mkG (g_index p) (mkI [ident] [] (i_hash (g_idt p)))) ps.
+
+Lemma fold_at_step_nth : forall plan ps j,
+  NoDup (map (fun kpi : nat * gproc * Z => fst (fst kpi)) plan) ->
+  nth_error (fold_left at_step plan ps) j =
+  match find (fun kpi : nat * gproc * Z => Nat.eqb (fst (fst kpi)) j) plan with
+  | Some kpi => option_map (fun _ => mkG (g_index (snd (fst kpi))) (mkI [snd kpi] [] (i_hash (g_idt (snd (fst kpi))))))
+                           (nth_error ps j)
+  | None => nth_error ps j
+  end.
+Proof.
+  induction plan as [|[[k p] ident] plan IH]; intros ps j Hnd; simpl; [reflexivity|].
+  inversion Hnd as [|x l Hx Hl]; subst. rewrite (IH _ j Hl). rewrite nth_error_set_nth.
+  rewrite (Nat.eqb_sym k j). destruct (Nat.eqb j k) eqn:E.
+  - apply Nat.eqb_eq in E. subst j.
+    assert (Hf : find (fun kpi : nat * gproc * Z => Nat.eqb (fst (fst kpi)) k) plan = None).
+    { destruct (find _ plan) as [y|] eqn:Ef; auto. apply find_some in Ef. destruct Ef as (Hin & Hk).
+      apply Nat.eqb_eq in Hk. exfalso. apply Hx. simpl. rewrite <- Hk. apply in_map_iff. exists y. auto. }
+    rewrite Hf. reflexivity.
+  - destruct (find _ plan); reflexivity.
+Qed.
+
+Lemma find_combine_key : forall {A B} (key : A -> nat) (l1 : list A) (l2 : list B) j,
+  find (fun pi : nat * B => Nat.eqb (fst pi) j) (combine (map key l1) l2)
+  = option_map (fun ab : A * B => (key (fst ab), snd ab))
+               (find (fun ab : A * B => Nat.eqb (key (fst ab)) j) (combine l1 l2)).
+Proof.
+  intros A B key l1. induction l1 as [|a l1 IH]; intros l2 j; simpl; [reflexivity|].
+  destruct l2 as [|b l2]; simpl; [reflexivity|]. destruct (Nat.eqb (key a) j); [reflexivity|apply IH].
+Qed.
+
+(* '@' : on a uniform group the observable after resolve_rules is exactly spec_at *)
+Theorem resolve_at_refines_spec : forall ev g L,
+  gr_at g = Some L -> L <> [] -> truthy (gr_hash g) = false ->
+  uniform_at (gr_procs g) = Some L ->
+  exists g', resolve_rules ev g = Ok g' /\ group_obs g' = spec_at ev L (gr_procs g).
+Proof.
+  intros ev g L Hat HL Hh Hu. unfold resolve_rules. rewrite Hat.
+  assert (Ht : truthy (Some L) = true) by (destruct L; [congruence|reflexivity]). rewrite Ht.
+  assert (Hgh : gr_hash (assign_at ev g) = gr_hash g) by reflexivity. rewrite Hgh, Hh.
+  eexists. split; [reflexivity|].
+  unfold group_obs, assign_at. cbn [gr_procs]. fold at_step.
+  apply nth_error_ext_eq. intros j. rewrite nth_error_map.
+  assert (Hnd : NoDup (map (fun kpi : nat * gproc * Z => fst (fst kpi)) (at_plan ev g))).
+  { destruct (assign_at_injective_bounded ev g L) as (_ & _ & H & _); auto.
+    (* instances need not be duplicate-free for this part *)
+    Abort.
